@@ -121,6 +121,23 @@ int runFatal(int argc, char **argv)
                 .sendToFile(dir + QStringLiteral("/warn.log"))
                 .end();
         gQtLogger.installMessageHandler();
+    } else if (cfg == "nestedfirst") {
+        // a nested pipeline with its own file first, then a formatter and a file sink on the outer level
+        gQtLogger.pipeline()
+                .filterLevel(QtWarningMsg)
+                .format(QStringLiteral("%{type}|%{message}"))
+                .sendToFile(dir + QStringLiteral("/warn.log"))
+                .end()
+                .format(QStringLiteral("%{message}"))
+                .sendToFile(path, L, N, options);
+        gQtLogger.installMessageHandler();
+    } else if (cfg == "badfirst") {
+        // the first file sink cannot open its file (directory does not exist); the second one is healthy
+        gQtLogger.format(QStringLiteral("%{message}"))
+                .sendToFile(dir + QStringLiteral("/no-such-dir/first.log"))
+                .sendToStdErr()
+                .sendToFile(path, L, N, options);
+        gQtLogger.installMessageHandler();
     } else if (cfg == "ini") {
         const QString ini = dir + QStringLiteral("/../cfg.ini");
         {
